@@ -233,17 +233,37 @@ def run_histories(ctx, histories, label, stats, known):
     # One harness process serves at most 24 histories (= 24 engines), in parallel processes: an engine never gives
     # its JIT code memory back, and after ~160 engines in one process the next JIT compilation panics ("unable to make
     # memory readable+executable") - a resource leak of the engine (reported under C07), not a C06 matter.
-    def run_batch(batch):
-        steel = "\n".join("\n".join(" ".join(to_steel(f) for f in p) for p in h) + "\nreset" for h in batch) + "\n"
-        return C.run_bin([C.bin_path("c06"), "hist"], steel, timeout=1200)
-
-    batches = [histories[i:i + 24] for i in range(0, len(histories), 24)]
-    res = C.pool_map(run_batch, batches) if len(batches) > 1 else [run_batch(b) for b in batches]
-    rrc = max([r[0] for r in res] + [0], key=abs)
     # the harness prints the `init` line of the NEXT engine after every `reset`: drop what follows a batch's last reset
     def upto_last_reset(text):
         i = text.rfind("\nreset\n")
         return text[: i + len("\nreset\n")] if i >= 0 else text
+
+    def run_batch(batch):
+        steel = "\n".join("\n".join(" ".join(to_steel(f) for f in p) for p in h) + "\nreset" for h in batch) + "\n"
+        return C.run_bin([C.bin_path("c06"), "hist"], steel, timeout=1200)
+
+    def run_batch_safe(batch):
+        """A batch that does not finish is re-run one history per process; a history that hangs on its own keeps the
+        output it produced (the piece in flight shows as `hang`)."""
+        rc, out, err = C.run_bin([C.bin_path("c06"), "hist"], "\n".join(
+            "\n".join(" ".join(to_steel(f) for f in p) for p in h) + "\nreset" for h in batch) + "\n", timeout=420)
+        if rc not in (124, -9):
+            return rc, out, err
+        outs = []
+        for h in batch:
+            steel = "\n".join(" ".join(to_steel(f) for f in p) for p in h) + "\nreset\n"
+            rc1, out1, err1 = C.run_bin([C.bin_path("c06"), "hist"], steel, timeout=90)
+            if rc1 in (124, -9):
+                lines = out1.splitlines()
+                done = max(0, len(lines) - 1)              # lines[0] is the init line
+                lines += ["hang ## s=0 f=0 t=0 e=0"] * (len(h) - done)
+                out1 = "\n".join(lines) + "\nreset\n"
+            outs.append(out1)
+        return 0, "".join(upto_last_reset(o) for o in outs), ""
+
+    batches = [histories[i:i + 24] for i in range(0, len(histories), 24)]
+    res = C.pool_map(run_batch_safe, batches) if len(batches) > 1 else [run_batch_safe(b) for b in batches]
+    rrc = max([r[0] for r in res] + [0], key=abs)
     rout = "".join(upto_last_reset(r[1]) for r in res)
     rerr = "".join(r[2][-800:] for r in res if r[0] != 0)
     rh = C.split_on(rout.splitlines(), "reset")
@@ -284,8 +304,14 @@ def run_histories(ctx, histories, label, stats, known):
                 stats["seen"].add(key)
             if mres != sres:
                 stats["model_vs_spec"] += 1
-            if real.startswith("panic"):
-                ctx.violation("C06-%s-%d-%d.txt" % (label, hi, pi), replay_text(h, pi, real, sres, mres))
+            if real.startswith(("panic", "hang")):
+                # K06b: a name entered into the symbol map by a unit that failed before defining it: assigning or reading
+                # it panics (env.rs unwrap) with the global lock held, and the next evaluation hangs
+                if in_k06b_class(h, pi) and "K06b" in known:
+                    ctx.known_finding("id=K06b %s" % known["K06b"])
+                    stats["known_hits"]["K06b"] = stats["known_hits"].get("K06b", 0) + 1
+                else:
+                    ctx.violation("C06-%s-%d-%d.txt" % (label, hi, pi), replay_text(h, pi, real, sres, mres))
                 break
             if real_norm == sres:
                 continue
